@@ -71,8 +71,9 @@ def sim(case):
                     rec = ("S", b[1])
                 else:
                     rec = ("P", b)
-                if arg is None and (len(out) > 0):
-                    # the first observation of the *current* track: only known to the oracle when attached
+                if arg is None:
+                    # the library chooses the base (the first observation, today): the property does not say which point,
+                    # so the oracle does not know it; only a return without argument (the recorded base) is attached
                     rec = ("P", "first")
                 kind = "N"
             elif kind == "E":
@@ -81,7 +82,7 @@ def sim(case):
                     out.append(("illegal", "int base for an ECEF track"))
                     break
                 rec = ("P", b)
-                if arg is None and (len(out) > 0):
+                if arg is None:
                     rec = ("P", "first")
                 kind = "N"
             else:
@@ -705,9 +706,11 @@ class P(Prop):
         off by up to 1.4e-6 m (Bowring one-step truncation, grows as h^2) for heights up to 10 km, every position converted back with the recorded base is shifted by
         that much, and for a position within 0.6 degree of a pole this is more than 1e-9 degree of longitude (never more
         than 1e-8 degree; latitude and height stay within the bounds)."""
+        import re
+        if case.get("kind") == "hist" and msg:
+            return self.FINDING_CLASS if H.finding_recorded_base(case, msg) else None
         if case.get("kind") != "track" or case["srid"] == "N" or not msg:
             return None
-        import re
         m = re.search(r"angles differ by \(([-+.\de]+), ([-+.\de]+)\) deg$", msg)
         if not m or float(m.group(1)) > 1e-8 or float(m.group(2)) > TOL_DEG:
             return None
